@@ -287,6 +287,9 @@ def check(prop, tier):
         procs = []
         for i in range(nshard):
             e = test_env(prop, tier, seed, i, nshard, pout, exclude)
+            # one OS thread per shard: the shards already fill the cores, and go.sh's
+            # lexer/parser hand-offs are far cheaper without cross-thread wake-ups
+            e["GOMAXPROCS"] = str(phase.get("gomaxprocs", cfg.get("gomaxprocs", 1)))
             e.update(phase.get("env", {}))
             lf = open(os.path.join(pout, "log-%d.txt" % i), "w")
             p = subprocess.Popen([pbin, "-test.run", "^%s$" % test, "-test.timeout", "%ds" % (cap + 60), "-test.v=false"],
